@@ -782,4 +782,135 @@ pub mod verif {
     pub fn empty_eds_data_hash() -> Vec<u8> {
         EMPTY_EDS_DATA_HASH.as_bytes().to_vec()
     }
+
+    // ---- C40: PoolTracker driven directly ----
+
+    /// Thin public wrapper around [`PoolTracker`] (whose own `get_pool`/`poll` mention crate-private types).
+    pub struct Tracker<S>(PoolTracker<S>);
+
+    impl<S: Store + 'static> Tracker<S> {
+        pub fn new(store: Arc<S>) -> Self {
+            Tracker(PoolTracker::new(store))
+        }
+        pub fn add_peer_for_hash(&mut self, peer_id: PeerId, data_hash: Hash, height: u64) {
+            self.0.add_peer_for_hash(peer_id, data_hash, height)
+        }
+        pub fn remove_peer(&mut self, peer_id: &PeerId) {
+            self.0.remove_peer(peer_id)
+        }
+    }
+
+    pub const ROOT_HASH_WINDOW: u64 = super::ROOT_HASH_WINDOW;
+    pub const POOL_VALIDATION_TIMEOUT: Duration = super::POOL_VALIDATION_TIMEOUT;
+
+    #[derive(Debug, Clone, PartialEq)]
+    pub enum VEvent {
+        AddPeers(Vec<PeerId>),
+        BlockPeers(Vec<PeerId>),
+        Other,
+    }
+
+    #[derive(Debug, Clone, PartialEq)]
+    pub enum VPoll {
+        Pending,
+        ReadyNone,
+        Ready(VEvent),
+    }
+
+    #[derive(Debug, Clone, PartialEq)]
+    pub enum VPool {
+        Candidates {
+            voted: Vec<PeerId>,
+            candidates: Vec<(Hash, Vec<PeerId>)>,
+        },
+        Validated(Hash),
+    }
+
+    #[derive(Debug, Clone, PartialEq)]
+    pub struct VState {
+        pub hash_pools: Vec<(u64, VPool)>,
+        pub validated_pools: Vec<(Hash, Vec<PeerId>)>,
+        pub subjective_head: Option<u64>,
+        pub pending_events: Vec<VEvent>,
+        pub tasks: usize,
+    }
+
+    fn vevent(ev: &Event) -> VEvent {
+        match ev {
+            Event::AddPeers(p) => VEvent::AddPeers(p.clone()),
+            Event::BlockPeers(p) => VEvent::BlockPeers(p.clone()),
+            _ => VEvent::Other,
+        }
+    }
+
+    /// `PoolTracker::poll`
+    pub fn poll<S: Store + 'static>(t: &mut Tracker<S>, cx: &mut Context<'_>) -> VPoll {
+        match t.0.poll(cx) {
+            Poll::Pending => VPoll::Pending,
+            Poll::Ready(None) => VPoll::ReadyNone,
+            Poll::Ready(Some(ev)) => VPoll::Ready(vevent(&ev)),
+        }
+    }
+
+    /// `PoolTracker::get_pool`, error mapped to its variant name
+    pub fn get_pool<S: Store + 'static>(
+        t: &Tracker<S>,
+        height: u64,
+    ) -> Result<Vec<PeerId>, &'static str> {
+        match t.0.get_pool(height) {
+            Ok(it) => Ok(it.copied().collect()),
+            Err(GetPoolError::CandidatesNotValidated) => Err("CandidatesNotValidated"),
+            Err(GetPoolError::HeightTooOld) => Err("HeightTooOld"),
+            Err(GetPoolError::HeightNotTracked) => Err("HeightNotTracked"),
+        }
+    }
+
+    /// Completes a header task with `HeaderTaskError::Timeout(height)` (as after 120 s without the header).
+    pub fn inject_timeout<S: Store + 'static>(t: &mut Tracker<S>, height: u64) {
+        t.0.new_headers_tasks
+            .push(async move { Err(HeaderTaskError::Timeout(height)) }.boxed());
+    }
+
+    /// Completes a header task with `HeaderTaskError::StoreError`.
+    pub fn inject_store_error<S: Store + 'static>(t: &mut Tracker<S>, height: u64) {
+        t.0.new_headers_tasks.push(
+            async move {
+                Err(HeaderTaskError::StoreError {
+                    height,
+                    source: StoreError::NotFound,
+                })
+            }
+            .boxed(),
+        );
+    }
+
+    pub fn dump<S: Store + 'static>(t: &Tracker<S>) -> VState {
+        let t = &t.0;
+        VState {
+            hash_pools: t
+                .hash_pools
+                .iter()
+                .map(|(h, p)| {
+                    (
+                        *h,
+                        match p {
+                            PeerPool::Candidates((voted, cands)) => VPool::Candidates {
+                                voted: voted.iter().copied().collect(),
+                                candidates: cands.iter().map(|(k, v)| (*k, v.clone())).collect(),
+                            },
+                            PeerPool::Validated(h) => VPool::Validated(*h),
+                        },
+                    )
+                })
+                .collect(),
+            validated_pools: t
+                .validated_pools
+                .iter()
+                .map(|(k, v)| (*k, v.clone()))
+                .collect(),
+            subjective_head: t.subjective_head,
+            pending_events: t.pending_events.iter().map(vevent).collect(),
+            tasks: t.new_headers_tasks.len(),
+        }
+    }
 }
